@@ -21,15 +21,16 @@ RULE = (
     'states, labels, cut-off, resolution).'
 )
 RULE += ' Added in rounds 5-10: per-atom species variants of one symbol; recurring cut-offs with results scribbled on after use; label vocabularies whose natural and string order differ; skewed cells with cut-offs between half the perpendicular width and half the shortest edge; one system with 1.8e7 pair distances (additivity over frame ranges + brute force on single frames).'
+RULE += ' Round 12: for a third of the systems framework atoms are placed 1.5e-9..4.5e-9 A beyond a bin edge from a diffusing atom; the bin-edge ambiguity band is 1e-9 A.'
 ASSUMPTIONS = [
-    'samples whose distance lies within 1e-7 A of a bin edge may fall in either neighbouring bin (counted in the evidence)',
+    'samples whose distance lies within 1e-9 A of a bin edge may fall in either neighbouring bin (counted in the evidence)',
     'bin 0 may include or exclude the zero self-distances',
     "'~>' states (transit with unknown previous or next site) are checked only as a whole: together they must hold exactly the remaining pairs",
     'site states reported by Transitions are taken as given (C02/C03)',
 ]
 N_CASES = {'quick': 200, 'thorough': 25000}
 BUDGET_S = {'quick': 220, 'thorough': 3600}
-EDGE = 1e-7
+EDGE = 1e-9
 
 _mon = Monitor()
 
@@ -154,6 +155,22 @@ def run_unit(unit, rng, ctx):
     ctx.count('fine_resolution_cases', res < 0.05)
     what = f'{sys_.kind}{"/rot" if sys_.rotated else ""} labels={sys_.labels} species={names} max_dist={max_dist:.3f} res={res}'
     wit = {'matrix': m, 'labels': sys_.labels, 'species': names, 'max_dist': max_dist, 'resolution': res}
+    if unit['i'] % 3 == 0:
+        # pairs placed a few 1e-9 A beyond a bin edge (2.500000003 A): such a pair belongs to the upper bin; 3e-9 A is
+        # six orders of magnitude above the rounding of a double-precision distance
+        fw = [i for i, n_ in enumerate(names) if n_ != 'Li']
+        li = [i for i, n_ in enumerate(names) if n_ == 'Li']
+        lim = min(max_dist, 0.45 * float(geom.perp_widths(m).min()))
+        inv_ = np.linalg.inv(m)
+        for t_ in rng.choice(T, size=min(T, 4), replace=False):
+            a_, j_ = int(rng.choice(li)), int(rng.choice(fw))
+            k_hi = int(np.floor((lim - 1e-6) / res))
+            if k_hi < 2:
+                break
+            e_ = int(rng.integers(1, k_hi + 1)) * res + float(rng.uniform(1.5e-9, 4.5e-9))
+            u_ = gen.random_unit_vectors(rng, 1)[0]
+            sys_.coords[t_, j_] = np.mod(sys_.coords[t_, a_] + (u_ * e_) @ inv_, 1)
+            ctx.count('pairs_placed_1.5e-9..4.5e-9_A_beyond_a_bin_edge')
     P = np.mod(sys_.coords, 1)
     P[P == 1] = 0
     symbols = sorted(set(names))
